@@ -193,16 +193,20 @@ CHECKS = {
             "TLA+ configuration-equivalence monitor checked by TLC over merged per-step observations from four builds",
             "5/C06"),
     "C08": ("exploration",
-            "PARTIAL (source level only). Monitor specification ConstTime.tla (2-safety non-interference over observed runs): an "
+            "PARTIAL (observed executions; source level and machine level). Monitor specification ConstTime.tla (2-safety non-interference over observed runs): an "
             "observation build - an AST rewriter applied through go -overlay, regenerated from the current tree on every run - reports every "
-            "non-constant index, slice bound and if/for/tagless-switch condition of 13 packages (769 sites); 36 secret-dependent operations "
+            "non-constant index, slice bound and if/for/tagless-switch condition of 13 packages (indices, bounds, conditions, short-circuit operands, switch tags); 41 secret-dependent operations "
             "x 24 (quick) / 96 (thorough) secrets of one public shape on the purego, force32bit and default builds must each yield ONE "
             "signature of the (site, value) stream; variable-time routines run as sensitivity controls and must yield several. A toy model "
-            "(MC_C08) states the intended control skeletons for all 8-bit secrets and its leaky variants are checked to fail.",
-            "NOT covered: assembly routines (window_amd64.s, field_u64_amd64.s, edwards_vector_amd64.s, keccakf_amd64.s), the standard "
-            "library, switch statements with a tag, variable-latency instructions, micro-architecture; secrets are sampled. Trusts TLC/SANY "
-            "and the rewriter.",
-            "TLA+ non-interference monitor checked by TLC over branch/index signatures from an AST-instrumented observation build",
+            "(MC_C08) states the intended control skeletons for all 8-bit secrets and its leaky variants are checked to fail. Machine level: "
+            "the uninstrumented library (assembly included) runs under valgrind/lackey; instruction-address and data-address signatures of "
+            "library code per (operation, secret) on the default (AVX2) and noavx2 (SSE2) builds (thorough: purego too), two runs in "
+            "opposite secret orders, go to the same monitor.",
+            "NOT covered: the standard library and x/crypto (keccakf_amd64.s), variable-latency instructions, micro-architecture; secrets "
+            "and operations are sampled; machine-level deviations that do not reproduce in both runs are filtered. Trusts TLC/SANY, the "
+            "rewriter, valgrind.",
+            "TLA+ non-interference monitor checked by TLC over branch/index signatures from an AST-instrumented observation build and over "
+            "instruction/data-address signatures of the compiled library traced with valgrind",
             "5/C08 and 9"),
     "C14": ("model_checking",
             "H2C.tla holds RFC 9380 expand_message_xmd/xof with their loop structure, oversize-DST path and abort conditions; Elligator.tla "
